@@ -507,6 +507,9 @@ C15_Step(s, e) ==
                  /\ \A n \in old : (Valid(n) /\ (d.hasCanary /\ d.canaryRS = d2.canaryRS)) => n \in new   \* stable
                  /\ \/ e.res.err
                     \/ Cardinality(new) \in wants
+                    \* "never exceeds it through the controller's own choice": a list that is longer than requested because the
+                    \* user lowered replicas (or the base of a percentage shrank) keeps its still-valid nodes; nothing is added
+                    \/ (new \subseteq old /\ \E w \in wants : Cardinality(new) > w)
                     \/ Masked("F-stale-nodes", "C15", Cardinality(new) = Cardinality(old) /\ \E n \in old : ~Valid(n))
                  \* additions spread over the values of the anti-affinity keys: no value that receives a new node ends up with
                  \* more than ceil(wanted / number of values among the selectable nodes)
